@@ -5,6 +5,7 @@ import (
 	"fmt"
 	"math/rand/v2"
 	"reflect"
+	"sort"
 	"strings"
 
 	"verifharness/model"
@@ -260,6 +261,15 @@ func (g *TG) Struct(depth int) reflect.Type {
 		}
 		if wide {
 			idx = wideBase + wideIdx[i]
+		} else if len(used) > 0 && g.R.IntN(8) == 0 {
+			// an index whose tag shares its leading bytes with the tag of an earlier field of the struct
+			// (16 apart: same first byte bar the low bits; 2048 and 262144 apart: same first one / two bytes)
+			var earlier []int
+			for u := range used {
+				earlier = append(earlier, u)
+			}
+			sort.Ints(earlier)
+			idx = earlier[g.R.IntN(len(earlier))] + []int{16, 128, 2048, 4096, 2 * 2048, 262144 / 4}[g.R.IntN(6)]
 		}
 		if g.NoIndexZero && (idx == 0 || (idx >= 19000 && idx <= 19999)) {
 			idx = 4
